@@ -42,11 +42,11 @@ ASSUMPTIONS = [
     "'HS reset': >= 3 ms of SE0 while in HS operation, then a non-J sample >= 200us after HS operation was left",
     "chirp_length (extra, USB2 7.1.7.5 TUCH >= 1 ms) is only asserted when bus_busy was low since the reset was reported",
 ]
-BOUNDS = "quick: constants B K=26 all inputs free (two assertion families), constants A K=43 with the reset and the " \
-         "device chirp scripted in cycles 0..12 and every input free from cycle 13, constants A K=80 free from cycle 37 (after a scripted clean handshake), constants A K=76/68 free from cycle 43 after a scripted aborted handshake (1/2 valid pairs + timeout); thorough: constants B K=44 and " \
-         "constants A K=50 all free, A K=56 free from cycle 13, A K=84 free from cycle 37 (after a scripted clean " \
-         "handshake) and from cycle 43 after an aborted handshake of 1 or 2 pairs (after a scripted " \
-         "handshake); static audit of the real constants"
+BOUNDS = "quick: constants B K=26 all inputs free (two assertion families); constants A K=43 with reset + device chirp " \
+         "scripted in cycles 0..12 and every input free from 13; A K=80 free from cycle 37 after a scripted clean " \
+         "handshake; A K=76/68 free from cycle 43 after a scripted first handshake aborted after 1/2 valid pairs + " \
+         "timeout (second bus reset free).  thorough: B K=44 and A K=50 all free, A K=56 free from 13, A K=84 free " \
+         "from 37, A K=84 free from 43 after the aborted handshake (k=1,2).  Static audit of the real constants"
 OUTSIDE = "real-time constants in the sequential clauses (scaled only; the real values are audited statically); " \
           "which of FULL/LOW is selected on fallback; device.py wiring of the restriction inputs; " \
           "resume detection polarity (LS/FS K) while suspended"
